@@ -495,6 +495,54 @@ def rename_ops(rng, body):
     return {"arg_tys": body["arg_tys"], "ops": ops, "yield": list(body["yield"])}
 
 
+def gen_large(rng, lo=10, hi=14):
+    """LARGE merged elements: 3..5 kernels of 3 operations over two or three i32/f32 ports whose operand routing
+    deliberately differs from the earlier kernels in most operand slots, so that the element reaches `lo`..`hi`
+    muxes. Every earlier kernel is re-decoded after every merge (the real search tries the oldest mux as most
+    significant bit, zeros first: an early kernel that needs the first muxes set to 1 sits behind >= 2^(m-1)
+    candidates). Only merged kernels are decoded (`merged_only`)."""
+    for _ in range(200):
+        ty = rng.choice([I32, I32, F32])
+        nd = rng.choice([2, 2, 3])
+        arg_tys = [ty] * (nd + 1)
+        tbl = INT_OPS if ty == I32 else FLT_OPS
+        nk = rng.choice([3, 4, 4, 5])
+        nops = 3
+        seen = {}  # slot -> sources used so far
+        bodies = []
+        for _k in range(nk):
+            for _try in range(40):
+                ops = []
+                for j in range(nops):
+                    srcs = [["a", i] for i in range(nd)] + [["r", q] for q in range(j)]
+                    opnds = []
+                    for slot in range(2):
+                        used = seen.get((j, slot), [])
+                        fresh = [x for x in srcs if x not in used]
+                        opnds.append(rng.choice(fresh) if fresh and rng.random() < 0.8 else rng.choice(srcs))
+                    ops.append([rng.choice(tbl), ty, opnds])
+                ysrcs = [["r", q] for q in range(nops)]
+                yfresh = [x for x in ysrcs if x not in seen.get("y", [])]
+                y = rng.choice(yfresh) if yfresh and rng.random() < 0.5 else ["r", nops - 1]
+                body = {"arg_tys": arg_tys, "ops": ops, "yield": y}
+                if used_args(body) == list(range(nd)):
+                    break
+            else:
+                continue
+            for j, o in enumerate(body["ops"]):
+                for slot in range(2):
+                    seen.setdefault((j, slot), []).append(o[2][slot])
+            seen.setdefault("y", []).append(body["yield"])
+            bodies.append(body)
+            if mux_estimate(bodies) > hi:
+                bodies.pop()
+                break
+        if len(bodies) >= 3 and lo <= mux_estimate(bodies) <= hi:
+            return {"kind": "large", "bodies": bodies, "merged_only": True}
+    return {"kind": "large", "bodies": bodies[:3] if len(bodies) >= 1 else [gen_body(rng, [I32, I32, I32], 3)],
+            "merged_only": True}
+
+
 def gen_grouped(rng, tier, maxmux):
     """merge plan with groups: some groups are merged into a graph of their own first (multi-operation choose
     ops, `ChooseOp.from_operations` with several operations); groups whose own graph needs a mux are rejected by
@@ -603,6 +651,9 @@ class C20(Prop):
     def cases(self, rng, tier):
         n = 600 if tier == "quick" else 4000
         maxmux = 9 if tier == "quick" else 11
+        # large elements (10..14 muxes), every merged kernel re-decoded after every merge
+        for i in range(40 if tier == "quick" else 300):
+            yield gen_large(rng)
         for i in range(n):
             if rng.random() < 0.1:
                 yield {"kind": "malformed", "bodies": gen_malformed(rng)}
@@ -835,6 +886,8 @@ class C20(Prop):
             return out
         groups = case_groups(case)
         abst = None
+        merged_only = bool(case.get("merged_only"))
+        merged_so_far = []
         for t, grp in enumerate(groups):
             try:
                 g = real_group_graph(bodies, grp, keep)
@@ -847,9 +900,13 @@ class C20(Prop):
             except Exception as e:  # noqa: BLE001
                 out["steps"].append({"raised": type(e).__name__})
                 break
+            merged_so_far = merged_so_far + list(grp)
             pj, ssa_ok, uniq = pe_json(abst)
             decs = []
-            for k in ks:
+            for ki, k in enumerate(ks):
+                if merged_only and ki not in merged_so_far:
+                    decs.append(None)  # large elements: an unmerged kernel would exhaust the exponential search
+                    continue
                 try:
                     sw = [int(x) for x in decode_abstract_graph(abst, k)]
                 except Exception as e:  # noqa: BLE001
@@ -881,6 +938,8 @@ class C20(Prop):
         args = {"bodies": case["bodies"]}
         if case.get("groups"):
             args["groups"] = case["groups"]
+        if case.get("merged_only"):
+            args["merged_only"] = True
         return [{"fn": "c20.history", "args": args}]
 
     def model(self, case, answers):
@@ -972,7 +1031,8 @@ class C20(Prop):
                     out.append({"what": f"decode of kernel {i} yields {len(sw)} values, get_true_switches() = {true_sw}",
                                 "finding": None})
                     continue
-                out.extend(self._call_op(abst, ks[i], sw, i))
+                if not case.get("merged_only") or t == len(groups) - 1:  # (decodes again: last step only for large elements)
+                    out.extend(self._call_op(abst, ks[i], sw, i))
                 full = full_switches(abst, sw)
                 try:
                     got = eval_pe(abst, sym_inputs(len(sig)), full, sym_sem)
